@@ -240,7 +240,7 @@ def vmapSet (nvdim ndim : Nat) (vdims : Option (List String)) (dims : List Strin
     if nvdim = 1 then .ok []
     else if nvdim = ndim then
       match vdims with
-      | none => .error .type
+      | none => .ok []          -- labels removed (`vdims=[]`): no default mapping (repo fix d1932c87, D46)
       | some vd => .ok (List.zip vd (dims.map some))
     else .ok []
   | some m =>
